@@ -133,6 +133,33 @@ int main(void)
 			digest_final(dig, out);
 			dig_done = 1;
 			hc_puthex(out, digest_result_len(dig)); putchar('\n');
+		} else if (nw == 4 && !strcmp(w[0], "d.long")) {
+			/* long-message family: <name> <nbytes> <seed>; message byte j = (j % 251 + seed) & 0xff,
+			 * fed in 1 MiB updates out of one (1 MiB + 251)-byte pattern buffer (no big allocation) */
+			const struct DigestInfo *di = info_by_name(w[1]);
+			long long total = parse_nat(w[2]), seed = parse_nat(w[3]), off = 0;
+			static uint8_t *pat;
+			static long long pat_seed = -1;
+			const long long CH = 1048576;
+			struct DigestContext *d;
+			if (!di || total < 0 || total > 8589934592LL || seed < 0 || seed > 255) { bad(); continue; }
+			alarm(3600);
+			if (!pat) pat = malloc(CH + 251);
+			if (pat_seed != seed) {
+				long long i;
+				for (i = 0; i < CH + 251; i++) pat[i] = (uint8_t)(i % 251 + seed);
+				pat_seed = seed;
+			}
+			d = digest_new(di, NULL);
+			while (off < total) {
+				long long n = total - off > CH ? CH : total - off;
+				digest_update(d, pat + off % 251, n);
+				off += n;
+			}
+			out = outbuf(digest_result_len(d));
+			digest_final(d, out);
+			hc_puthex(out, digest_result_len(d)); putchar('\n');
+			digest_free(d);
 		} else if (nw == 1 && !strcmp(w[0], "d.reset")) {
 			if (!dig) { bad(); continue; }
 			digest_reset(dig);
